@@ -186,11 +186,258 @@ def all_combos():
         yield (method, owner, outcome, timing, target)
 
 
+# --------------------------------------------------------------------------------------------------
+# racing straggler (scheduler-driven)
+# --------------------------------------------------------------------------------------------------
+
+RACE_METHODS = ['is_file', 'exists', 'is_dir', 'list_dir', 'walk', 'get_size', 'declare_read', 'read_text', 'subbuild', 'build_file']
+RACE_OWNERS = ['sub', 'file']
+
+
+def race_once(method, owner, spec):
+    """One run: the owner function spawns a straggler thread that calls ``method`` on the owner's
+    builder, does a little work and returns.  Returns a dict describing what happened."""
+    from file_builder import FileBuilder
+    from .. import sched
+    sb = Sandbox()
+    sched.enable()
+    try:
+        R = sb.R
+        os.mkdir(os.path.join(R, 'in'))
+        for n in ('a', 'probe'):
+            with open(os.path.join(R, 'in', n), 'w') as f:
+                f.write('input')
+            os.utime(os.path.join(R, 'in', n), ns=(10 ** 18, 10 ** 18))
+        cache = os.path.join(R, 'cache.gz')
+        probe = os.path.join(R, 'in', 'probe') if method not in ('list_dir', 'walk') else os.path.join(R, 'in')
+        late_out = os.path.join(R, 'late', 'o')
+        info = {'straggler': None, 'late_invoked': False, 'log': []}
+
+        def late_func(b, *a):
+            info['late_invoked'] = True
+            if a:
+                with open(a[0], 'w') as f:
+                    f.write('late')
+            return 'late'
+
+        def straggler(b):
+            try:
+                if method == 'build_file':
+                    r = b.build_file(late_out, 'late', late_func)
+                elif method == 'subbuild':
+                    r = b.subbuild('late', late_func)
+                elif method == 'read_text':
+                    r = b.read_text(probe)
+                    r.close()
+                    r = 'opened'
+                else:
+                    r = getattr(b, method)(probe)
+                info['straggler'] = ('value', repr(r)[:60])
+            except RuntimeError as e:
+                info['straggler'] = ('RuntimeError', str(e)[:50])
+            except Exception as e:
+                info['straggler'] = (type(e).__name__, str(e)[:80])
+
+        S = [None]
+        # observe appends to a record that was already closed before the call (must raise, never attach)
+        orig_append = FileBuilder._append_suboperation
+
+        def watched_append(self, suboperation):
+            op = self._operation
+            was_finished = op is not None and op.is_finished
+            orig_append(self, suboperation)
+            if was_finished:
+                info['appended_after_close'] = True
+        FileBuilder._append_suboperation = watched_append
+
+        def owner_body(b, path=None):
+            info['log'].append('owner')
+            S[0].spawn(lambda: straggler(b))
+            b.exists(os.path.join(R, 'in', 'a'))
+            if path is not None:
+                with open(path, 'w') as f:
+                    f.write('out')
+                os.utime(path, ns=(10 ** 18 + 1, 10 ** 18 + 1))
+            return 'owner'
+
+        def task(b):
+            if owner == 'sub':
+                return b.subbuild('owner', lambda bb: owner_body(bb))
+            return b.build_file(os.path.join(R, 'out', 'o'), 'owner', lambda bb, p: owner_body(bb, p))
+
+        def root(b):
+            S[0] = sched.Sched(spec)
+            res = S[0].run_all([lambda: task(b)])
+            info['decisions'] = S[0].n
+            info['deadlock'] = S[0].deadlocked
+            for r in res:
+                if r is not None and r[0] == 'exc' and not isinstance(r[1], RuntimeError):
+                    raise r[1]
+            return 'root'
+
+        try:
+            info['outcome'] = ('ok', FileBuilder.build(cache, 'c17r', root))
+        except Exception as e:
+            info['outcome'] = ('exc', type(e).__name__ + ': ' + str(e)[:80])
+        sched.disable()
+        FileBuilder._append_suboperation = orig_append
+        info['late_file'] = os.path.exists(late_out)
+        info['tmp'] = sb.tmp_listing()
+        if os.path.isfile(cache):
+            with gzip.open(cache, 'rt') as f:
+                cj = json.load(f)
+        else:
+            cj = None
+        info['cache'] = cj
+        # is the straggler's operation attached to the owner's record / present anywhere in the cache?
+        attached = False
+        anywhere = False
+        if cj:
+            def walk_ops(ops, under_owner):
+                nonlocal attached, anywhere
+                for op in ops:
+                    is_owner = op.get('funcName') == 'owner'
+                    mine = (op.get('type') == {'declare_read': 'read', 'read_text': 'read'}.get(method, method) and
+                            (op.get('args') or [None])[0] in (probe,)) or op.get('funcName') == 'late'
+                    if mine:
+                        anywhere = True
+                        if under_owner:
+                            attached = True
+                    walk_ops(op.get('suboperations', []), under_owner or is_owner)
+            walk_ops(cj.get('rootOperations', []), False)
+        info['attached'] = attached
+        info['anywhere'] = anywhere
+        # behavioural confirmation: flip the probed answer and rebuild (the spawn is not repeated: plain functions)
+        if method in ('is_file', 'exists', 'get_size', 'declare_read', 'read_text'):
+            os.remove(os.path.join(R, 'in', 'probe'))
+        elif method in ('list_dir', 'walk'):
+            with open(os.path.join(R, 'in', 'new'), 'w') as f:
+                f.write('n')
+        elif method == 'is_dir':
+            os.remove(os.path.join(R, 'in', 'probe'))
+            os.mkdir(os.path.join(R, 'in', 'probe'))
+        relog = []
+
+        def owner2(b, path=None):
+            relog.append('owner')
+            b.exists(os.path.join(R, 'in', 'a'))
+            if path is not None:
+                with open(path, 'w') as f:
+                    f.write('out')
+                os.utime(path, ns=(10 ** 18 + 1, 10 ** 18 + 1))
+            return 'owner'
+
+        def root2(b):
+            if owner == 'sub':
+                b.subbuild('owner', lambda bb: owner2(bb))
+            else:
+                b.build_file(os.path.join(R, 'out', 'o'), 'owner', lambda bb, p: owner2(bb, p))
+            return 'root'
+        if cj is not None and method not in ('subbuild', 'build_file'):
+            try:
+                FileBuilder.build(cache, 'c17r', root2)
+                info['owner_reexecuted_after_flip'] = bool(relog)
+            except Exception as e:
+                info['owner_reexecuted_after_flip'] = 'exc:' + type(e).__name__
+        return info
+    finally:
+        sched.disable()
+        try:
+            FileBuilder._append_suboperation = orig_append
+        except NameError:
+            pass
+        sb.close()
+
+
+def check_race(method, owner, spec):
+    case = {'race': [method, owner, spec]}
+    info = race_once(method, owner, spec)
+    fails = []
+    st_ = info['straggler']
+    if info.get('deadlock'):
+        fails.append(failure('C17.race_deadlock', 'deadlock between the straggler and the returning owner', case, ''))
+    if st_ is None:
+        raise RuntimeError('harness: straggler never ran (%r)' % (info.get('outcome'),))
+    if info['outcome'][0] != 'ok':
+        fails.append(failure('C17.race_build_failed', 'the build failed because of the straggler: %s' % info['outcome'][1][:60], case, ''))
+        return fails, info
+    if st_[0] not in ('value', 'RuntimeError'):
+        fails.append(failure('C17.race_exception', 'straggler %s raised %s (neither a result nor RuntimeError)' % (method, st_[0]), case, st_[1]))
+    if st_[0] == 'value' and not info['attached']:
+        fails.append(failure('C17.race_unrecorded', 'straggler %s on a %s builder got a result that is not part of the owner\'s record' % (method, owner),
+                             case, json.dumps(info['cache'])[:800]))
+    if info.get('appended_after_close'):
+        fails.append(failure('C17.race_attached_after_close', 'an operation was appended to a record that had already been closed', case, ''))
+    if st_[0] == 'RuntimeError' and info['attached']:
+        fails.append(failure('C17.race_attached_after_close', 'straggler %s was refused but its operation is attached to the closed record' % method,
+                             case, json.dumps(info['cache'])[:800]))
+    if st_[0] == 'RuntimeError' and method in ('subbuild', 'build_file') and (info['late_invoked'] or info['late_file'] or info['anywhere']):
+        fails.append(failure('C17.race_refused_with_effect',
+                             'straggler %s was refused with RuntimeError but had an effect (function invoked=%s, output exists=%s, cache entry=%s)' % (
+                                 method, info['late_invoked'], info['late_file'], info['anywhere']), case, ''))
+    flip = info.get('owner_reexecuted_after_flip')
+    if flip is not None and not isinstance(flip, str):
+        if st_[0] == 'value' and not flip:
+            fails.append(failure('C17.race_unrecorded', 'the straggler\'s observation changed but the owner was served from the cache', case, ''))
+        if st_[0] == 'RuntimeError' and flip:
+            fails.append(failure('C17.race_attached_after_close', 'a refused straggler observation invalidates the owner\'s record', case, ''))
+    if info['tmp']:
+        fails.append(failure('C17.race_effect', 'temporary directory left', case, ''))
+    return fails, info
+
+
 def plan(tier, seed):
-    return [{'part': 'seq', 'i': i, 'n': 16, 'tier': tier} for i in range(16)]
+    shards = [{'part': 'seq', 'i': i, 'n': 16, 'tier': tier} for i in range(16)]
+    for i in range(16):
+        shards.append({'part': 'race', 'i': i, 'n': 16, 'tier': tier, 'seed': seed})
+    return shards
+
+
+def run_race_shard(shard):
+    """All (method, owner) pairs; call-level single preemptions exhaustively, line-level single preemptions
+    exhaustively and line-level pairs (a seeded sample in the quick tier, a larger one in thorough)."""
+    import random
+    counters = collections.Counter()
+    fails = []
+    nontriv = set()
+    samples = []
+    n = 0
+    combos = [(m, o) for m in RACE_METHODS for o in RACE_OWNERS]
+    rng = random.Random(shard['seed'] * 131 + shard['i'])
+    for idx, (m, o) in enumerate(combos):
+        if idx % shard['n'] != shard['i']:
+            continue
+        _f, info = check_race(m, o, {'preempt': []})
+        N = info['decisions']
+        _f, info = check_race(m, o, {'preempt': [], 'lines': True})
+        NL = info['decisions']
+        specs = [{'preempt': []}] + [{'preempt': [[i, 0]]} for i in range(1, N + 2)]
+        specs += [{'preempt': [[i, 0]], 'lines': True} for i in range(1, NL + 2)]
+        pairs = [(i, j) for i in range(1, min(NL, 40) + 1) for j in range(i + 1, NL + 2)]
+        budget = 250 if shard['tier'] == 'quick' else 4000
+        if len(pairs) > budget:
+            pairs = rng.sample(pairs, budget)
+        else:
+            counters['race_pairs_exhaustive'] += 1
+        specs += [{'preempt': [[i, 0], [j, 0]], 'lines': True} for i, j in pairs]
+        for spec in specs:
+            fs, info = check_race(m, o, spec)
+            n += 1
+            fails.extend(fs[:1])
+            counters['race_runs'] += 1
+            counters['race_straggler_' + info['straggler'][0]] += 1
+            interesting = info['straggler'][0] == 'value' or (info['straggler'][0] == 'RuntimeError' and info['late_invoked'])
+            if interesting:
+                counters['race_straggler_got_past_the_check'] += 1
+                nontriv.add(small_hash([m, o, spec]))
+                if len(samples) < 2:
+                    samples.append({'race': [m, o, spec], 'straggler': info['straggler']})
+    return {'evaluations': n, 'nontrivial': nontriv, 'samples': samples, 'counters': counters, 'failures': fails}
 
 
 def run_shard(shard):
+    if shard.get('part') == 'race':
+        return run_race_shard(shard)
     counters = collections.Counter()
     fails = []
     nontriv = set()
@@ -216,6 +463,19 @@ def run_shard(shard):
 
 
 def replay(case):
+    if 'race' in case:
+        return check_race(*case['race'])[0]
+    if 'race_sweep' in case:
+        # schedule-robust witness: every single line-level preemption of the (method, owner) race
+        m, o = case['race_sweep']
+        _f, info = check_race(m, o, {'preempt': [], 'lines': True})
+        for i in range(1, info['decisions'] + 2):
+            fs, _info = check_race(m, o, {'preempt': [[i, 0]], 'lines': True})
+            if fs:
+                for f in fs:
+                    f['case'] = case
+                return fs
+        return []
     if case['combo'] == ['<coverage>']:
         missing = [m for m in public_methods() if m not in METHODS]
         return [failure('C17.not_fenced', 'public builder methods not covered: %s' % missing, case, '')] if missing else []
